@@ -1,10 +1,12 @@
 //! C07: no peer input can panic, wedge or silently kill a task.
 //!
-//! input line:  <role> <framing> <level> <chunk-hex> <chunk-hex> ...
+//! input line:  <role> <framing> <level> <token> <token> ...
+//!   token   = <chunk-hex>  one scripted read chunk
+//!           | @L<afp>      change the decode level now (ServerCommand::ChangeDecoding / Channel::set_decode_level)
 //!   role    = server | client
 //!   framing = tcp | rtu
 //!   level   = three digits a f p : app 0..3, frame 0..2, phys 0..2  (e.g. 000 = nothing, 322 = everything)
-//! output line: ok frames_or_replies=<n> end=<reason> alive_after=<0|1> shutdown_ok=<0|1>
+//! output line: ok frames_or_replies=<n> end=<reason> alive_after=<0|1> shutdown_ok=<0|1> out=<hex written> calls=<handler log> [res=<request result>]
 //!              PANIC <message>      (the task panicked)
 //!              WEDGED               (no progress within the wall-clock watchdog)
 //! The session is fed the chunks (one scripted chunk per read), settled, then probed: the task
@@ -50,22 +52,34 @@ pub fn install_subscriber() {
 struct Handler {
     coils: Vec<bool>,
     regs: Vec<u16>,
+    log: std::sync::Arc<std::sync::Mutex<Vec<String>>>,
+}
+
+impl Handler {
+    fn note(&self, s: String) {
+        self.log.lock().unwrap().push(s);
+    }
 }
 
 impl RequestHandler for Handler {
     fn read_coil(&self, address: u16) -> Result<bool, ExceptionCode> {
+        self.note(format!("rc{address}"));
         self.coils.get(address as usize).to_result()
     }
     fn read_discrete_input(&self, address: u16) -> Result<bool, ExceptionCode> {
+        self.note(format!("rd{address}"));
         self.coils.get(address as usize).to_result()
     }
     fn read_holding_register(&self, address: u16) -> Result<u16, ExceptionCode> {
+        self.note(format!("rh{address}"));
         self.regs.get(address as usize).to_result()
     }
     fn read_input_register(&self, address: u16) -> Result<u16, ExceptionCode> {
+        self.note(format!("ri{address}"));
         self.regs.get(address as usize).to_result()
     }
     fn write_single_coil(&mut self, value: Indexed<bool>) -> Result<(), ExceptionCode> {
+        self.note(format!("wc{}={}", value.index, value.value as u8));
         match self.coils.get_mut(value.index as usize) {
             Some(c) => {
                 *c = value.value;
@@ -75,6 +89,7 @@ impl RequestHandler for Handler {
         }
     }
     fn write_single_register(&mut self, value: Indexed<u16>) -> Result<(), ExceptionCode> {
+        self.note(format!("wr{}={}", value.index, value.value));
         match self.regs.get_mut(value.index as usize) {
             Some(c) => {
                 *c = value.value;
@@ -84,7 +99,9 @@ impl RequestHandler for Handler {
         }
     }
     fn write_multiple_coils(&mut self, values: WriteCoils) -> Result<(), ExceptionCode> {
+        self.note(format!("wmc{}+{}", values.range.start, values.range.count));
         for x in values.iterator {
+            self.note(format!("{}={}", x.index, x.value as u8));
             match self.coils.get_mut(x.index as usize) {
                 Some(c) => *c = x.value,
                 None => return Err(ExceptionCode::IllegalDataAddress),
@@ -93,7 +110,9 @@ impl RequestHandler for Handler {
         Ok(())
     }
     fn write_multiple_registers(&mut self, values: WriteRegisters) -> Result<(), ExceptionCode> {
+        self.note(format!("wmr{}+{}", values.range.start, values.range.count));
         for x in values.iterator {
+            self.note(format!("{}={}", x.index, x.value));
             match self.regs.get_mut(x.index as usize) {
                 Some(c) => *c = x.value,
                 None => return Err(ExceptionCode::IllegalDataAddress),
@@ -103,11 +122,13 @@ impl RequestHandler for Handler {
     }
 }
 
-async fn run_server(framing: Framing, level: DecodeLevel, chunks: Vec<Vec<u8>>) -> String {
+async fn run_server(framing: Framing, level: DecodeLevel, tokens: Vec<Token>) -> String {
     let wire = Wire::new();
+    let log = std::sync::Arc::new(std::sync::Mutex::new(Vec::new()));
     let handler = Handler {
         coils: (0..3000).map(|i| i % 3 == 0).collect(),
         regs: (0..3000).map(|i| (i * 7) as u16).collect(),
+        log: log.clone(),
     }
     .wrap();
     let mut map = ServerHandlerMap::new();
@@ -116,12 +137,20 @@ async fn run_server(framing: Framing, level: DecodeLevel, chunks: Vec<Vec<u8>>) 
     let (tx, rx) = tokio::sync::mpsc::channel(8);
     let io = wire.clone();
     let task = tokio::spawn(async move { run_server_session(Box::new(io), map, None, framing, level, rx).await });
-    for c in &chunks {
-        wire.push(c);
+    for t in &tokens {
+        match t {
+            Token::Chunk(c) => wire.push(c),
+            Token::Level(l) => {
+                let _ = tx.send(ServerCommand::ChangeDecoding(*l)).await;
+            }
+        }
         settle().await;
     }
     settle().await;
-    let replies = wire.take_out().len();
+    let written = wire.take_out();
+    let replies = written.len();
+    let out_hex = crate::util::hex(&written.concat());
+    let calls = log.lock().unwrap().join(",");
     let alive = !task.is_finished();
     // the command queue must still be honoured
     let mut shutdown_ok = true;
@@ -142,7 +171,19 @@ async fn run_server(framing: Framing, level: DecodeLevel, chunks: Vec<Vec<u8>>) 
         task.abort();
         "Running".to_string()
     };
-    format!("ok frames_or_replies={replies} end={end} alive_after={} shutdown_ok={}", alive as u8, shutdown_ok as u8)
+    format!(
+        "ok frames_or_replies={replies} end={end} alive_after={} shutdown_ok={} out={} calls={}",
+        alive as u8,
+        shutdown_ok as u8,
+        if out_hex.is_empty() { "-".to_string() } else { out_hex },
+        if calls.is_empty() { "-".to_string() } else { calls }
+    )
+}
+
+#[derive(Clone)]
+pub enum Token {
+    Chunk(Vec<u8>),
+    Level(DecodeLevel),
 }
 
 fn panic_text(e: tokio::task::JoinError) -> String {
@@ -156,7 +197,7 @@ fn panic_text(e: tokio::task::JoinError) -> String {
     }
 }
 
-async fn run_client(framing: Framing, level: DecodeLevel, chunks: Vec<Vec<u8>>) -> String {
+async fn run_client(framing: Framing, level: DecodeLevel, tokens: Vec<Token>) -> String {
     let wire = Wire::new();
     let (channel, mut session) = ClientSession::new(framing, 8, level, std::num::NonZeroUsize::new(3));
     let io = wire.clone();
@@ -170,21 +211,41 @@ async fn run_client(framing: Framing, level: DecodeLevel, chunks: Vec<Vec<u8>>) 
     settle().await;
     // a request is outstanding while the peer's bytes arrive, then idle
     let param = RequestParam::new(UnitId::new(1), Duration::from_secs(1));
-    let mut ch = channel.clone();
+    let ch = channel.clone();
     let req = tokio::spawn(async move { ch.read_holding_registers(param, AddressRange::try_from(0, 5).unwrap()).await });
     settle().await;
     let mut n = 0;
-    for c in &chunks {
-        wire.push(c);
+    for t in &tokens {
+        match t {
+            Token::Chunk(c) => {
+                wire.push(c);
+                n += 1;
+            }
+            Token::Level(l) => {
+                // queued behind the outstanding request: must not interrupt it
+                let ch2 = channel.clone();
+                let l = *l;
+                tokio::spawn(async move {
+                    let _ = ch2.set_decode_level(l).await;
+                });
+            }
+        }
         settle().await;
-        n += 1;
     }
     tokio::time::advance(Duration::from_secs(2)).await;
     settle().await;
     let completed = req.is_finished();
-    if !completed {
+    let res = if completed {
+        match req.await {
+            Ok(Ok(v)) => format!("Ok[{}]", v.iter().map(|x| format!("{}:{}", x.index, x.value)).collect::<Vec<_>>().join(";")),
+            Ok(Err(e)) => format!("Err({})", format!("{e:?}").replace(' ', "")),
+            Err(_) => "JoinError".to_string(),
+        }
+    } else {
         req.abort();
-    }
+        "Pending".to_string()
+    };
+    let out_hex = crate::util::hex(&wire.take_out().concat());
     let alive = !task.is_finished();
     let mut shutdown_ok = true;
     if alive {
@@ -205,8 +266,8 @@ async fn run_client(framing: Framing, level: DecodeLevel, chunks: Vec<Vec<u8>>) 
         "Running".to_string()
     };
     format!(
-        "ok frames_or_replies={n} end={end} alive_after={} shutdown_ok={} request_completed={}",
-        alive as u8, shutdown_ok as u8, completed as u8
+        "ok frames_or_replies={n} end={end} alive_after={} shutdown_ok={} request_completed={} out={} res={}",
+        alive as u8, shutdown_ok as u8, completed as u8, out_hex, res
     )
 }
 
@@ -215,7 +276,13 @@ fn run_case(line: &str) -> String {
     let role = parts[0].to_string();
     let framing = parts[1].to_string();
     let level = level_of(parts[2]);
-    let chunks: Vec<Vec<u8>> = parts[3..].iter().map(|h| crate::util::unhex(h)).collect();
+    let chunks: Vec<Token> = parts[3..]
+        .iter()
+        .map(|h| match h.strip_prefix("@L") {
+            Some(l) => Token::Level(level_of(l)),
+            None => Token::Chunk(crate::util::unhex(h)),
+        })
+        .collect();
     let rt = tokio::runtime::Builder::new_current_thread()
         .enable_all()
         .start_paused(true)
